@@ -317,13 +317,17 @@ def replay(ck: core.Check, doc) -> bool:
     for pre in case.get("prelude", []):
         lh.run_case(pre["prog"], pre["hist"], pre["ref"])
     prog, hist, ref = case["prog"], case.get("hist", []), case.get("ref")
-    r = lh.run_case(prog, hist, ref)
+    # orders that come from object addresses differ from realisation to realisation: try a few
+    for _ in range(8):
+        r = lh.run_case(prog, hist, ref)
+        if r["violations"]:
+            break
     for key, what, _ in r["violations"]:
         print(f"{key}: {what}")
     if r["violations"]:
         return True
-    if mode in ("fresh", "fresh-vs-history") or case.get("hashseeds"):
-        seeds = case.get("hashseeds", [0, 1, 2, 3])
+    if True:
+        seeds = case.get("hashseeds", [0, 1, 2, 3])[:8]
         fresh = c03.run_fresh(ck, [{"prog": prog, "hist": hist if mode != "fresh-vs-history" else [], "ref": ref,
                                     "salt": case.get("salt", 0) + 17 * j} for j in range(3)], seeds, "replay")
         shas = set()
